@@ -266,14 +266,14 @@ theorem C12_header_missing (i : Nat) (bc txt : Str) (hfound : (substPh kwBlock i
 /-! ## (c) the comment scanners, with comments on and off -/
 
 /-- `_extract_line_comments` on one line, as a case distinction on the search for `//`: no marker, line unchanged;
-    otherwise every occurrence of the comment text is replaced by the placeholder (comments on) or removed
-    (comments off).  With comments off no placeholder is put into the line. -/
+    otherwise the comment (from the marker to the end of the line) is replaced by the placeholder (comments on) or
+    removed (comments off).  With comments off no placeholder is put into the line. -/
 theorem C12_lineComment_cases (comments : Bool) (st : LexSt) (l : Str) :
     (lexLineComment comments st l).2 =
       match findLineComment none l with
       | none => l
-      | some (_, tail) =>
-        replaceAll (dropFinalNl tail).1 (if comments then kwLine ++ padSix st.fresh.1 else []) l := by
+      | some (before, tail) =>
+        before ++ (if comments then kwLine ++ padSix st.fresh.1 else []) ++ (dropFinalNl tail).2 := by
   unfold lexLineComment
   cases findLineComment none l with
   | none => rfl
@@ -283,8 +283,11 @@ theorem C12_lineComment_off (st : LexSt) (l : Str) :
     (lexLineComment false st l).2 =
       match findLineComment none l with
       | none => l
-      | some (_, tail) => replaceAll (dropFinalNl tail).1 [] l :=
-  C12_lineComment_cases false st l
+      | some (before, tail) => before ++ (dropFinalNl tail).2 := by
+  rw [C12_lineComment_cases false st l]
+  cases findLineComment none l with
+  | none => rfl
+  | some p => simp
 
 /-- the first `//` that is neither preceded by `:` nor inside a run of text with `/` or `:` is found -/
 theorem findLineComment_hit (r : Str) : ∀ (b : Str) (prev : Option Char), prev ≠ some ':' → '/' ∉ b → ':' ∉ b →
@@ -368,16 +371,14 @@ theorem C12_lineComment (comments : Bool) (st : LexSt) (b cm nl : Str) (h1 : '/'
     · cases h
     · cases h
     · exact hcm h
-  have hdrop : (dropFinalNl ('/' :: '/' :: (cm ++ nl))).1 = '/' :: '/' :: cm := by
+  have hdrop : dropFinalNl ('/' :: '/' :: (cm ++ nl)) = ('/' :: '/' :: cm, nl) := by
     rcases hnl with rfl | rfl
     · rw [List.append_nil, dropFinalNl_plain _ hlast]
     · have : '/' :: '/' :: (cm ++ ['\n']) = ('/' :: '/' :: cm) ++ ['\n'] := rfl
       rw [this, dropFinalNl_nl]
-  have hnl' : '/' ∉ nl := by rcases hnl with rfl | rfl <;> decide
   unfold lexLineComment
   rw [hfind]
   simp only [hdrop]
-  rw [replaceAll_tail ('/' :: cm) _ b nl h1 hnl']
 
 /-- with comments off the placeholder word is not put into the line -/
 example (st : LexSt) : (lexLineComment false st "a 1; // note\n".toList).2 = "a 1; \n".toList := by
